@@ -479,6 +479,42 @@ func runC09(c *Ctx) {
 		}
 	}
 
+
+	// ---------- R09.11 backoff table under its mutex
+	c.Rule("R09.11", "E2", "qruntime.Adapter.backoffs (read by every worker) only under backoffsMu", 2)
+	c.LocksetReport("R09.11", p.Lockset(LockSpec{Rel: pkgQRuntime, Struct: "Adapter", Mutex: "backoffsMu", Guarded: []string{"backoffs"}}, pkgQRuntime), nil)
+
+
+	// ---------- R09.12 the item on offer is this iteration's head
+	c.Rule("R09.12", "E3", "Queue.Run: the item offered to consumers is built from the Peek of the same loop iteration (key and value) — nothing about the offer survives into the next iteration, so a Put that replaced the head's value is what gets delivered", 1)
+
+	if f := p.Method(pkgQueue, "Queue", "Run"); c.NeedFunc("R09.12", f, "Queue.Run") {
+		n := 0
+
+		for _, in := range Find(f, func(in ssa.Instruction) bool { _, ok := in.(*ssa.Select); return ok }) {
+			for _, st := range in.(*ssa.Select).States {
+				if st.Send == nil {
+					continue
+				}
+
+				n++
+
+				carried, at := LoopCarried(st.Send)
+				detail := ""
+
+				if carried {
+					detail = "the offered item depends on an earlier iteration through " + p.DescN(at, 2)
+				}
+
+				c.Check(!carried, "R09.12", FuncName(f)+" :: the offered item is built in this iteration", in.Pos(), "no loop-carried value", detail)
+			}
+		}
+
+		if n == 0 {
+			c.Unknown("R09.12", FuncName(f)+" :: the offered item is built in this iteration", fpos(f), "anchor-unresolved: no send arm in the queue's select")
+		}
+	}
+
 }
 
 // variadicElems returns the values passed in the variadic tail of a call built by the compiler
